@@ -231,7 +231,7 @@ def gen_rin(rng):
     return toks
 
 
-def gen_sim_case(rng, allow_stop_in_chunk, big=False):
+def gen_sim_case(rng, allow_stop_in_chunk=True, big=False):
     nh = rng.choice([1, 1, 2, 2, 3])
     hs, lines = [], []
     for i in range(nh):
@@ -621,24 +621,36 @@ def shrink_sim(ctx, sexe, c, sig):
     return cur
 
 
-def check_sim(ctx, sexe, c, monitors_only=False):
-    ctx.count()
+def eval_sim(ctx, sexe, c, monitors_only=False):
+    """run implementation (+ model) on one case; no ctx mutation (runs in worker threads)"""
     try:
         il, mon = run_sim_case(ctx, sexe, c)
     except Exception as ex:   # monitor parse failure = the log is not what the protocol promises
-        ctx.broken_correspondence("c10 sim log", f"monitor could not parse the log: {ex!r}; case {c}")
+        return c, None, None, None, repr(ex)
+    ml = None
+    if not mon.fail and not monitors_only:
+        ml = ctx.driver(["c10"], "\n".join(c) + "\n").splitlines()
+    return c, il, mon, ml, None
+
+
+def judge_sim(ctx, sexe, res, monitors_only=False):
+    c, il, mon, ml, err = res
+    ctx.count()
+    if err:
+        ctx.broken_correspondence("c10 sim log", f"monitor could not parse the log: {err}; case {c}")
         return False, None
     if mon.fail:
         if mon.sig == "generator":
             ctx.broken_correspondence("c10 generator", mon.fail + f"; case {c}")
             return False, mon
+        if mon.sig in ctx.known:
+            ctx.violation(mon.sig, f"C10: {mon.fail}", {"mode": "sim", "lines": c})
+            return True, mon      # known finding: nothing more to compare on this case
         small = shrink_sim(ctx, sexe, c, mon.sig)
-        if ctx.violation(mon.sig, f"C10: {mon.fail}", {"mode": "sim", "lines": small}):
-            return False, mon
-        return True, mon      # known finding: nothing more to compare on this case
+        ctx.violation(mon.sig, f"C10: {mon.fail}", {"mode": "sim", "lines": small})
+        return False, mon
     if monitors_only:
         return True, mon
-    ml = ctx.driver(["c10"], "\n".join(c) + "\n").splitlines()
     bi, _ = blocks_of(c, il)
     bm, _ = blocks_of(c, ml)
     ci, cm = canon(bi), canon(bm)
@@ -652,6 +664,24 @@ def check_sim(ctx, sexe, c, monitors_only=False):
     if st["eagain"] or st["try2_partial"] or st["err_status"] or st["ecanceled"] or st["mmsg_chunks"] or st["enobufs"] or st["enomem"]:
         ctx.nontrivial("S" + hashlib.sha1("\n".join(il).encode()).hexdigest()[:12])
     return True, mon
+
+
+def check_sim(ctx, sexe, c, monitors_only=False):
+    return judge_sim(ctx, sexe, eval_sim(ctx, sexe, c, monitors_only), monitors_only)
+
+
+def run_sim_many(ctx, sexe, cases, agg, monitors_only=False):
+    """evaluate in parallel, judge in order; stops at the first failing case"""
+    with ThreadPoolExecutor(max(2, NCPU - 2)) as ex:
+        for res in ex.map(lambda c: eval_sim(ctx, sexe, c, monitors_only), cases):
+            ok, mon = judge_sim(ctx, sexe, res, monitors_only)
+            if mon:
+                for k, v in mon.stats.items():
+                    agg[k] = agg.get(k, 0) + v
+            if not ok or ctx.violations:
+                ex.shutdown(wait=False, cancel_futures=True)
+                return False
+    return True
 
 
 CORPUS = [
@@ -672,9 +702,11 @@ CORPUS = [
     ["new h0 4 0 0", "new h1 6 1 1", "script h0 send 0 send:1:0:6 try:1:7 try2:2:1:6", "script h0 send 1 close",
      "sout h0 e11", "op h0 send:1:0:10", "op h0 send:1:0:11", "run", "run", "run",
      "alloc h1 200000", "rin h1 d5:0:1 d6:0:2 d7:0:3", "script h1 recv 1 send:0:0:6 close", "op h1 rstart", "run", "run"],
+    # uv_udp_recv_stop inside a UV_UDP_MMSG_CHUNK callback: the buffer must still come back (MMSG_FREE)
+    ["new h0 4 0 1", "alloc h0 131072", "rin h0 d10:0:1 d20:0:2", "script h0 recv 0 rstop", "op h0 rstart", "run", "run"],
+    ["new h0 6 0 1", "alloc h0 1400000", "rin h0 " + " ".join(f"d{10 + j}:0:2" for j in range(30)),
+     "script h0 recv 3 rstop rstart", "script h0 recv 9 rstop", "op h0 rstart", "run", "op h0 rstart", "run", "run"],
 ]
-STOP_PROBE = ["new h0 4 0 1", "alloc h0 131072", "rin h0 d10:0:1 d20:0:2", "script h0 recv 0 rstop", "op h0 rstart",
-              "run", "run"]
 
 
 def run(ctx):
@@ -683,8 +715,7 @@ def run(ctx):
                     "scripted receive queue: the fake recvmsg/recvmmsg implement the same tiny kernel model as UvModel.Udp.kRecvmsg/kRecvmmsg"]
     ctx.assumptions += ["sendmmsg/recvmmsg called with vlen >= 1 return a value in 1..vlen or -1 (Linux)",
                         "callbacks act on their own handle only; no API calls on a handle after uv_close; send_cb is not NULL",
-                        "recv_buffer_handed_back_once (Lean) assumes no uv_udp_recv_stop inside a UV_UDP_MMSG_CHUNK callback "
-                        "(negation witness proved: recv_stop_in_chunk_leaks)"]
+                        "datagrams already read by recvmmsg are dropped when a chunk callback stops receiving (accepted: the user stopped)"]
     lean_ok = ctx.require_lean(["UvModel.Props.C10"])
     uexe = ctx.harness("c10_unit", ["harness/c10_unit.c"], link_lib=True)
     sexe = ctx.harness("c10_sim", ["harness/c10_sim.c"], link_lib=True)
@@ -696,31 +727,19 @@ def run(ctx):
             check_sim(ctx, sexe, rp["lines"])
         return
     rng = ctx.rng
-    stop_known = KNOWN_STOP_SIG in ctx.known
+    stop_known = True    # uv_udp_recv_stop inside MMSG_CHUNK callbacks is always generated (fixed defect L23)
     agg = {}
     if uexe:
         ok = run_unit(ctx, uexe, list(unit_cases_systematic(range(0, 201) if not ctx.quick else
                                                             list(range(0, 70)) + [80, 99, 100, 101, 120, 159, 160, 161, 199, 200])),
                       "systematic")
-        ok = ok and run_unit(ctx, uexe, [unit_case_random(rng) for _ in range(ctx.scale(3000, 60000))], "random")
+        ok = ok and run_unit(ctx, uexe, [unit_case_random(rng) for _ in range(ctx.scale(5000, 100000))], "random")
         ctx.notes["unit_counts"] = "1..200 systematic (partial/EINTR/EAGAIN/ENOBUFS/other errno at every chunk index) + random"
     if sexe:
-        cases = [list(c) for c in CORPUS] + [gen_sim_case(rng, stop_known, big=not ctx.quick) for _ in range(ctx.scale(700, 12000))]
-        for c in cases:
-            ok, mon = check_sim(ctx, sexe, c)
-            if mon:
-                for k, v in mon.stats.items():
-                    agg[k] = agg.get(k, 0) + v
-            if not ok:
-                break
+        cases = [list(c) for c in CORPUS] + [gen_sim_case(rng, stop_known, big=not ctx.quick) for _ in range(ctx.scale(2000, 40000))]
+        run_sim_many(ctx, sexe, cases, agg)
         ctx.sample({"sim_program": cases[len(CORPUS)][:14]})
         ctx.notes["sim_events"] = agg
-        # the recv_stop-inside-chunk lead: always probed, reported as a violation only through known_findings
-        il, mon = run_sim_case(ctx, sexe, STOP_PROBE)
-        ctx.notes["probe_recv_stop_in_chunk"] = ("buffer not handed back (no UV_UDP_MMSG_FREE callback)" if mon.sig == KNOWN_STOP_SIG
-                                                 else f"handed back / other: {mon.sig}")
-        if stop_known and mon.sig == KNOWN_STOP_SIG:
-            ctx.violation(KNOWN_STOP_SIG, mon.fail, {"mode": "sim", "lines": STOP_PROBE})
     if (ctx.broken or not lean_ok) and not ctx.violations:
         ctx.log("obligation broken; searching for a failing input with the monitors")
         srng = SplitMix(ctx.seed + 4242)
@@ -732,11 +751,9 @@ def run(ctx):
                 if not run_unit(ctx, uexe, lines, "search", monitors_only=True) or ctx.violations:
                     break
         if sexe and not ctx.violations:
-            for _ in range(ctx.scale(6000, 20000)):
-                n += 1
-                ok, mon = check_sim(ctx, sexe, gen_sim_case(srng, stop_known, big=True), monitors_only=True)
-                if ctx.violations:
-                    break
+            scases = [gen_sim_case(srng, stop_known, big=True) for _ in range(ctx.scale(6000, 20000))]
+            n += len(scases)
+            run_sim_many(ctx, sexe, scases, {}, monitors_only=True)
         ctx.notes["search"] = f"{n} extra cases run against the monitors after an obligation broke"
     ctx.cov["rule"] = ("unit: every count 0..200 with all-success, and per chunk index a partial result, EINTR runs, "
                        "EAGAIN/ENOBUFS/other errno; plus random outcome scripts; non-trivial = count > 20 with a "
